@@ -280,7 +280,9 @@ def observation_tier(run, judge, rng, thorough, seed):
 
     sets = adsorbate_sets()
     grids = [numpy.linspace(0.05, 0.95, 10), numpy.linspace(0.12, 0.97, 30), numpy.linspace(0.02, 0.985, 60),
-             numpy.array([0.1 + 0.85 * (k / 24) ** 2 for k in range(1, 25)])]
+             numpy.array([0.1 + 0.85 * (k / 24) ** 2 for k in range(1, 25)]),
+             # the whole open interval: very low pressures and the approach to saturation (beyond the default upper limit 0.99)
+             numpy.array([1e-4, 1e-3, 0.01, 0.05, 0.1, 0.3, 0.5, 0.7, 0.9, 0.97, 0.99, 0.995, 0.998, 0.999])]
 
     # ---- Kelvin radii
     for name, T, ad in sets:
@@ -368,6 +370,7 @@ def observation_tier(run, judge, rng, thorough, seed):
             run.count(("psd_mesoporous", name, gi, tname, method, geom, branch, men, sname, step, use_limits))
             if not finite(res["pore_widths"], res["pore_volumes"], res["pore_distribution"], res["pore_volume_cumulative"]):
                 n_not_judged += 1
+                run.violation(dict(sig_of(cfg), site="psd_mesoporous", clause="returns", wrong="non-finite widths / volumes / distribution"), det)
                 continue
             judge.add(psd_record(V[sl], t[sl], None, res, zero, step=(step - lo_i if step else 0), kmode="eq", lnp=lnp[sl], ad=ad_enc(ad), men=men,
                                  branch=branch, pore=geom, cum=res["pore_volume_cumulative"]), "psd_mesoporous", cfg, det)
@@ -385,6 +388,7 @@ def observation_tier(run, judge, rng, thorough, seed):
                 judge.add(psd_record(V, t, None, res, zero, step=step, kmode="eq", lnp=lnp, ad=ad_enc(ad), men=m_eff, branch=branch, pore=geom), site, cfg, det)
             else:
                 n_not_judged += 1
+                run.violation(dict(sig_of(cfg), site=site, clause="returns", wrong="non-finite widths / volumes / distribution"), det)
     # call histories: the same model / meniscus / temperature for alternating adsorbates within one process;
     # every call is judged like a first call (the Kelvin clause uses the adsorbate's own gamma M / rho)
     same_t = [x for x in sets if x[1] == 100.0]
@@ -427,7 +431,7 @@ def observation_tier(run, judge, rng, thorough, seed):
             if finite(res["pore_widths"], res["pore_volumes"], res["pore_distribution"], res["pore_volume_cumulative"]):
                 judge.add(psd_record(V, t, None, res, tname == "zero thickness", step=step, kmode="kjs", lnp=[math.log(x) for x in p], ad=ad_enc(ad),
                                      men="cylindrical", branch="ads", pore="cylinder", cum=res["pore_volume_cumulative"]), "psd_mesoporous", cfg, {"adsorbate": name})
-    run.add("observation_not_judged_non_finite", n_not_judged)
+    run.add("observation_non_finite_outputs", n_not_judged)
     if judge.recs:
         r = judge.recs[-1]
         run.sample({"tier": "observation", "config": judge.meta[-1][1], "V": r["V"][:5], "widths": r["widths"][:5], "volumes": r["volumes"][:5]})
